@@ -1,6 +1,6 @@
 (* C06 — a filtered subscription or clone is exactly its filter applied to
    its parent.  Property theorems only. *)
-From KC Require Import Base Filter Cache CacheSpec CacheProps FilterSub FilterSubProps.
+From KC Require Import Base Filter Cache CacheSpec CacheProps FilterSub FilterSubProps FilterRace FilterRaceProps.
 
 (* consuming a parent event (a well-formed delta of the parent's cache, C02)
    keeps the child's cache equal to the filter applied to the parent's cache *)
@@ -41,3 +41,46 @@ Print Assumptions C06_own_events_wellformed.
 Theorem C06_fs_inv_reachable : forall s is, fs_inv s -> fs_inv (fst (fs_run s is)).
 Proof. exact fs_inv_reachable. Qed.
 Print Assumptions C06_fs_inv_reachable.
+
+(* THE RACING CASE.  Per key: the parent's history is any list of events that
+   are well-formed deltas of the parent's cache with entries that never get
+   older (hist_ok); the child interleaves, in any order, consuming the next
+   parent event with listing the parent at a point that is ANY number of
+   events ahead of what it has consumed, under ANY new filter.  Once it is
+   ready and the stale events have drained, its cache is the most recently set
+   filter applied to the parent's cache ... *)
+Theorem C06_fsub_converges : forall F p0 hist l s,
+  hist_ok p0 p0 hist -> rrun (rinit F p0 hist) l = Some s ->
+  r_ready s = true -> r_pend s = [] ->
+  r_cur s = fview (r_F s) (r_P s).
+Proof. exact fsub_converges. Qed.
+Print Assumptions C06_fsub_converges.
+
+(* ... and when the whole history has been consumed, to the parent's final cache *)
+Theorem C06_fsub_converges_to_final : forall F p0 hist l s,
+  hist_ok p0 p0 hist -> rrun (rinit F p0 hist) l = Some s ->
+  r_ready s = true -> consumed_all s ->
+  r_cur s = fview (r_F s) (pfold p0 hist).
+Proof. exact fsub_converges_to_final. Qed.
+Print Assumptions C06_fsub_converges_to_final.
+
+(* the per-key semantics used there is what the cache operations do on every
+   key, and what the parent's cache does under its own events *)
+Theorem C06_child_sync_per_key : forall F' child parent k,
+  wf_cache parent ->
+  clookup k (fst (do_sync F' child (do_list parent))) =
+  sync_spec F' (clookup k child) (plisting (clookup k parent)).
+Proof. exact child_sync_per_key. Qed.
+Print Assumptions C06_child_sync_per_key.
+
+Theorem C06_child_update_per_key : forall F child ev k,
+  clookup k (fst (do_update F child ev)) =
+  if key_eqb (key_of (ev_obj ev)) k then update_spec F (clookup k child) ev else clookup k child.
+Proof. exact child_update_per_key. Qed.
+Print Assumptions C06_child_update_per_key.
+
+Theorem C06_parent_apply_per_key : forall parent ev parent',
+  apply_event parent ev = Some parent' ->
+  clookup (key_of (ev_obj ev)) parent' = papply (clookup (key_of (ev_obj ev)) parent) ev.
+Proof. exact parent_apply_per_key. Qed.
+Print Assumptions C06_parent_apply_per_key.
